@@ -238,8 +238,31 @@ class ModbusTcpClient(BaseModbusClient):
         if not self.socket:
             raise ConnectionException(self.__str__())
         if request:
+            self._flush_input()
             return self.socket.send(request)
         return 0
+
+    def _flush_input(self):
+        """ Discards whatever is waiting in the receive buffer before a
+        request is sent: it can only be the late reply to an earlier request
+        (one that has already timed out) and would otherwise be read as the
+        reply to this request. The serial client does the same.
+        """
+        self.socket.setblocking(0)
+        size = 0
+        try:
+            # bounded, a peer that keeps talking cannot hold up the request
+            while size < 0x10000:
+                data = self.socket.recv(Defaults.ReadSize)
+                if not data:
+                    break
+                size += len(data)
+        except socket.error:
+            # nothing (more) is waiting
+            pass
+        if size:
+            _logger.warning("Cleanup recv buffer before "
+                            "send: %d bytes" % size)
 
     def _recv(self, size):
         """ Reads data from the underlying descriptor
@@ -359,6 +382,12 @@ class ModbusTlsClient(ModbusTcpClient):
                           'failed: %s' % (self.host, self.port, msg))
             self.close()
         return self.socket is not None
+
+    def _flush_input(self):
+        """ The TLS socket is read in blocking mode (with the timeout set
+        by connect): nothing is discarded here.
+        """
+        pass
 
     def _recv(self, size):
         """ Reads data from the underlying descriptor
